@@ -370,4 +370,24 @@ pub fn c16(ctx: &Ctx, rep: &mut Report) {
         "'each ping answered within T' is read as: constant delay <= T, or every delay < min(I,T) (see DESIGN.md C16)".into(),
     ];
     ctx.prop(rep, "keepalive", ctx.tier.pick(200_000, 5_000_000), 300, ka_case, check_ka);
+    // connections that stay up for months (virtual time costs nothing): intervals of hours to weeks, so that the 20-interval horizon
+    // spans 2^31 ms (24.8 days), 2^32 ms (49.7 days) and more; same policies and the same oracle
+    ctx.prop(rep, "long-uptime", ctx.tier.pick(4_000, 100_000), 20, || {
+        const H: u64 = 3_600_000;
+        (prop::sample::select(vec![H, 6 * H, 24 * H, 3 * 24 * H, 7 * 24 * H, 21 * 24 * H]), 1u64..=3, 0u8..5, any::<bool>()).prop_map(|(i, tk, pol, silent_transport)| {
+            let t = tk * i;
+            let pong = match pol {
+                0 => Pong::Const(5),
+                1 => Pong::Const(i / 2 + 5),
+                2 => Pong::ThenSilent(7, 15),
+                3 => Pong::ThenSilent(14, 15),
+                _ => Pong::Never,
+            };
+            KaCase { interval: i, timeout: t, pong, silent_transport, peer_ping_every: 0, sink_stalls_at: 0 }
+        })
+    }, |c| {
+        let mut o = check_ka(c);
+        o.classes.push("uptime-days-to-months");
+        o
+    });
 }
